@@ -7,7 +7,11 @@ import (
 	"context"
 	"errors"
 	"fmt"
+	"io"
+	"net"
+	"os"
 	"strings"
+	"syscall"
 	"testing/fstest"
 	"time"
 
@@ -22,6 +26,26 @@ type failWriter struct {
 	written  bytes.Buffer
 	calls    int
 	chunks   []any // every Write's payload (healthy runs): the chunk list handed to the model
+	err      error // what the failing Write reports (nil = errSink)
+}
+
+// what a destination reports when it fails: a sentinel, the errors of a closed pipe and a short write, the end-of-file value, a cancelled
+// context's error, and the errors of a connection whose peer has hung up (wrapped the way net.Conn and http.ResponseWriter wrap them)
+var c12SinkErrors = []struct {
+	name string
+	err  error
+}{
+	{"closed-pipe", io.ErrClosedPipe}, {"short-write", io.ErrShortWrite}, {"eof", io.EOF}, {"unexpected-eof", io.ErrUnexpectedEOF}, {"canceled", context.Canceled}, {"deadline", os.ErrDeadlineExceeded},
+	{"epipe", syscall.EPIPE}, {"epipe-wrapped", &net.OpError{Op: "write", Net: "tcp", Err: os.NewSyscallError("write", syscall.EPIPE)}},
+	{"econnreset-wrapped", &net.OpError{Op: "write", Net: "tcp", Err: os.NewSyscallError("write", syscall.ECONNRESET)}}, {"econnaborted", fmt.Errorf("write: %w", syscall.ECONNABORTED)},
+	{"enospc", &os.PathError{Op: "write", Path: "/out/page.html", Err: syscall.ENOSPC}}, {"net-closed", net.ErrClosed},
+}
+
+func (w *failWriter) fail() error {
+	if w.err != nil {
+		return w.err
+	}
+	return errSink
 }
 
 var errSink = errors.New("sink failed")
@@ -29,7 +53,7 @@ var errSink = errors.New("sink failed")
 func (w *failWriter) Write(p []byte) (int, error) {
 	w.calls++
 	if w.failCall > 0 && w.calls == w.failCall {
-		return 0, errSink
+		return 0, w.fail()
 	}
 	if w.failAt < 0 {
 		w.chunks = append(w.chunks, string(p))
@@ -44,7 +68,7 @@ func (w *failWriter) Write(p []byte) (int, error) {
 	} else {
 		room = 0
 	}
-	return room, errSink
+	return room, w.fail()
 }
 
 type c12Prog struct {
@@ -154,7 +178,7 @@ func runC12(r *Run, replay *Case) {
 		only = replay.Input["prog"].(string) + "|" + replay.Input["entry"].(string)
 	}
 	r.Res.Rule = "every entry point (Render with/without layout, RenderFile, RenderString, RenderByte, RenderReader) x 14 programs (succeeding, failing early/late/in loop/include/layout/required/missing) x " +
-		"writer failing at EVERY byte offset 0..len(output), writer failing transiently at EVERY single Write call x pre-cancelled context; non-trivial = every (program, entry, offset); distinct likewise"
+		"writer failing at EVERY byte offset 0..len(output), writer failing at the first, a middle and the last offset with 12 kinds of error value (sentinel, closed pipe, short write, EOF, cancelled, deadline, EPIPE / ECONNRESET / ECONNABORTED / ENOSPC plain and wrapped as net.Conn and os do), writer failing transiently at EVERY single Write call x pre-cancelled context; non-trivial = every (program, entry, offset); distinct likewise"
 	for _, p := range c12Progs() {
 		for _, e := range c12Entries {
 			if only != "" && only != p.desc+"|"+e {
@@ -242,6 +266,24 @@ func runC12(r *Run, replay *Case) {
 					ck.Oracle = &Verdict{OK: false, Class: "spurious-writer-error:" + e, Detail: errk.Error()}
 				}
 				r.Add(ck)
+			}
+			// 3b. the same for every KIND of error a destination reports, at the first, a middle and the last offset: whatever the error
+			//     says, the document did not arrive
+			for _, se := range c12SinkErrors {
+				for _, k := range []int{0, len(full) / 2, len(full) - 1} {
+					if k < 0 || r.FailureTotal() > 200 {
+						continue
+					}
+					wk := &failWriter{failAt: k, err: se.err}
+					errk, _ := c12Call(p, e, context.Background(), wk)
+					ck := &Case{Name: fmt.Sprintf("%s via %s, writer fails at %d with %s", p.desc, e, k, se.name), Input: map[string]any{"prog": p.desc, "entry": e, "case": "fail-kind", "k": k, "kind": se.name},
+						Key: fmt.Sprintf("%s|%s|fail-kind|%d|%s", p.desc, e, k, se.name), Tags: []string{"entry:" + e, "prog:" + p.desc, "kind:fail-kind", "sinkerr:" + se.name}, Oracle: &Verdict{OK: true},
+						Impl: map[string]any{"err": errk != nil, "len": wk.written.Len()}}
+					if errk == nil {
+						ck.Oracle = &Verdict{OK: false, Class: "writer-failure-swallowed:" + e + ":" + se.name, Detail: fmt.Sprintf("writer failed at offset %d of %d with %q but the render returned nil (wrote %d bytes)", k, len(full), se.err, wk.written.Len())}
+					}
+					r.Add(ck)
+				}
 			}
 			// 4. a TRANSIENT failure: exactly one Write call fails (nothing accepted), every other call succeeds. nil must still imply that the
 			//    destination received the complete document.
